@@ -75,7 +75,11 @@ var stubTypes = []string{"grease-x", "future", "x25519", "X25519x", "SCRYPT", "s
 
 func genStubStanza(t *rapid.T) refage.Stanza {
 	st := refage.Stanza{Type: rapid.SampledFrom(stubTypes).Draw(t, "stubType")}
-	for i, n := 0, rapid.IntRange(0, 3).Draw(t, "stubArgs"); i < n; i++ {
+	nargs := rapid.IntRange(0, 3).Draw(t, "stubArgs")
+	if rapid.IntRange(0, 7).Draw(t, "stubManyArgs") == 0 {
+		nargs = rapid.IntRange(6, 10).Draw(t, "stubArgs2")
+	}
+	for i, n := 0, nargs; i < n; i++ {
 		st.Args = append(st.Args, genArg(t, "stubArg"))
 	}
 	st.Body = hx.PRG(rapid.Uint64().Draw(t, "stubSeed"), rapid.SampledFrom([]int{0, 0, 16, 32, 47, 48, 49, 96, 100}).Draw(t, "stubBody"))
@@ -215,7 +219,10 @@ func writeSegs(w io.Writer, data []byte, segs []int) (int, error) {
 
 // genReadPlan draws caller buffer sizes; -1 stands for io.Copy (WriterTo path).
 func genReadPlan(t *rapid.T) []int {
-	switch rapid.IntRange(0, 6).Draw(t, "planClass") {
+	switch rapid.IntRange(0, 7).Draw(t, "planClass") {
+	case 7:
+		// mixed: one or two Reads, then io.Copy
+		return append(rapid.SliceOfN(rapid.SampledFrom([]int{1, 4, 100, 4096, chunk}), 1, 2).Draw(t, "mixedReads"), -1)
 	case 0:
 		return []int{-1}
 	case 1:
@@ -231,6 +238,24 @@ func genReadPlan(t *rapid.T) []int {
 
 // readAllPlan consumes r according to plan and normalises a clean end to nil.
 func readAllPlan(r io.Reader, plan []int) ([]byte, error) {
+	if len(plan) > 1 && plan[len(plan)-1] == -1 {
+		// a few Reads with the given buffer sizes, then io.Copy for the rest
+		var out []byte
+		for _, sz := range plan[:len(plan)-1] {
+			b := make([]byte, sz)
+			n, err := r.Read(b)
+			out = append(out, b[:n]...)
+			if err == io.EOF {
+				return out, nil
+			}
+			if err != nil {
+				return out, err
+			}
+		}
+		var buf bytes.Buffer
+		_, err := io.Copy(&buf, r)
+		return append(out, buf.Bytes()...), err
+	}
 	if len(plan) == 1 && plan[0] == -1 {
 		var buf bytes.Buffer
 		_, err := io.Copy(&buf, r)
